@@ -388,23 +388,30 @@ PACES = ["acknowledges stream and connection at once", "acknowledges on the conn
          "initial window exactly the size of the body (0 for a bodiless response), never acknowledges"]
 
 
+VARIANTS = ["h2 via ALPN", "h2c upgrade", "h2c upgrade with an empty HTTP2-Settings value", "h2c upgrade without an HTTP2-Settings header",
+            "trailers to a client that sent te: trailers", "trailers to a client without te", "PRIORITY frame for the stream in an earlier read than its HEADERS",
+            "PRIORITY frame for a stream that never opens"]
+
+
 @harness(
     "C02",
-    dom={"si": (0, len(S_STATUS) - 1), "hi": (0, 3), "ci": (0, len(S_CHUNKS) - 1), "head": "bool", "pace": (0, 4), "h2c": "bool", "tr": (0, 2), "prio": (0, 2)},
+    dom={"si": (0, len(S_STATUS) - 1), "hi": (0, 3), "ci": (0, len(S_CHUNKS) - 1), "head": "bool", "pace": (0, 4), "var": (0, len(VARIANTS) - 1)},
     split={"pace": "each", "ci": "each"},
-    witnesses=[{"si": 0, "hi": 1, "ci": 4, "head": False, "pace": 1, "h2c": False, "tr": 0, "prio": 0}, {"si": 3, "hi": 1, "ci": 5, "head": True, "pace": 3, "h2c": False, "tr": 0, "prio": 0},
-               {"si": 0, "hi": 0, "ci": 3, "head": False, "pace": 2, "h2c": False, "tr": 1, "prio": 0}, {"si": 0, "hi": 1, "ci": 2, "head": False, "pace": 0, "h2c": False, "tr": 0, "prio": 1},
-               {"si": 0, "hi": 1, "ci": 4, "head": False, "pace": 2, "h2c": False, "tr": 0, "prio": 2}],
+    thorough_split={"pace": "each", "ci": "each", "var": "each"},
+    witnesses=[{"si": 0, "hi": 1, "ci": 4, "head": False, "pace": 1, "var": 0}, {"si": 3, "hi": 1, "ci": 5, "head": True, "pace": 3, "var": 0},
+               {"si": 0, "hi": 0, "ci": 3, "head": False, "pace": 2, "var": 4}, {"si": 0, "hi": 1, "ci": 2, "head": False, "pace": 0, "var": 6},
+               {"si": 0, "hi": 1, "ci": 4, "head": False, "pace": 2, "var": 7}, {"si": 0, "hi": 1, "ci": 1, "head": False, "pace": 0, "var": 2},
+               {"si": 1, "hi": 0, "ci": 0, "head": False, "pace": 0, "var": 3}, {"si": 0, "hi": 1, "ci": 3, "head": False, "pace": 4, "var": 1}],
     budget={"quick": 200, "thorough": 900},
     per_path=120,
-    bounds="HTTP/2 responses: 4 (thorough 7) statuses x 4 header lists x 7 chunkings x GET/HEAD x 5 client paces (acks both levels, connection level only, 2000-byte initial window, acks only when stalled, window exactly the body size and no acks at all) x h2 via ALPN or via h2c upgrade x {no trailers, trailers to a client that sent te: trailers, trailers to a client that did not} x {no PRIORITY frames, a PRIORITY frame for the request's stream in an earlier read than its HEADERS, a PRIORITY frame for a stream that never opens}, parsed by an independent h2 client that enforces flow control",
+    bounds="HTTP/2 responses: 4 (thorough 7) statuses x 4 header lists x 7 chunkings x GET/HEAD x 5 client paces (acks both levels, connection level only, 2000-byte initial window, acks only when stalled, window exactly the body size and no acks at all) x 8 session variants (ALPN; h2c upgrade with HTTP2-Settings sent / empty / absent; trailers to a client that sent te: trailers / that did not; a PRIORITY frame in an earlier read than the HEADERS / for a stream that never opens), parsed by an independent h2 client that enforces flow control",
     encodes=["hypercorn/protocol/h2.py::H2Protocol.stream_send", "hypercorn/protocol/h2.py::H2Protocol._send_data", "hypercorn/protocol/h2.py::H2Protocol.send_task", "hypercorn/protocol/h2.py::H2Protocol._window_updated",
              "hypercorn/protocol/h2.py::H2Protocol.initiate", "hypercorn/protocol/http_stream.py::HTTPStream.app_send"],
     stubs=["tier B runtime"],
 )
-def h2_response_delivery(si: int, hi: int, ci: int, head: bool, pace: int, h2c: bool, tr: int, prio: int) -> bool:
+def h2_response_delivery(si: int, hi: int, ci: int, head: bool, pace: int, var: int) -> bool:
     """
-    pre: DOM(h2_response_delivery, si=si, hi=hi, ci=ci, head=head, pace=pace, h2c=h2c, tr=tr, prio=prio)
+    pre: DOM(h2_response_delivery, si=si, hi=hi, ci=ci, head=head, pace=pace, var=var)
     post: _
     """
     enter()
@@ -413,11 +420,17 @@ def h2_response_delivery(si: int, hi: int, ci: int, head: bool, pace: int, h2c: 
     chunks = S_CHUNKS[conc(ci, 0, len(S_CHUNKS) - 1)]
     head = True if head else False
     pace = conc(pace, 0, 4)
-    h2c = True if h2c else False
-    tr = conc(tr, 0, 2)
-    prio = conc(prio, 0, 2)
-    if prio and (h2c or (_QUICK and (head or tr or hi != 1))):
-        return done(True, skipped="PRIORITY frames: not over h2c (stream 1 is implicit); quick tier: GET with a content-length and no trailers")
+    var = conc(var, 0, len(VARIANTS) - 1)
+    h2c = var in (1, 2, 3)
+    h2cs = {2: 1, 3: 2}.get(var, 0)
+    tr = {4: 1, 5: 2}.get(var, 0)
+    prio = {6: 1, 7: 2}.get(var, 0)
+    if h2cs and pace != 0:
+        return done(True, skipped="empty / absent HTTP2-Settings: h2c upgrades with the default windows only")
+    if tr and _QUICK and (head or hi not in (0, 1)):
+        return done(True, skipped="quick tier: trailers with GET and two of the header lists")
+    if prio and _QUICK and (head or hi != 1):
+        return done(True, skipped="quick tier: PRIORITY frames with GET and a content-length")
     method = b"HEAD" if head else b"GET"
     no_body = ref_suppress(method.decode(), status)
     if tr and (h2c or (_QUICK and (head or hi not in (0, 1)))):
@@ -445,7 +458,8 @@ def h2_response_delivery(si: int, hi: int, ci: int, head: bool, pace: int, h2c: 
     if h2c:
         from vf.stubs.clients import split_h1_head
 
-        req = h1_request(method.decode(), b"/r", [(b"Host", b"example.com"), (b"Connection", b"Upgrade, HTTP2-Settings"), (b"Upgrade", b"h2c"), (b"HTTP2-Settings", client.upgrade_settings)])
+        settings_header = [(b"HTTP2-Settings", client.upgrade_settings)] if h2cs == 0 else ([(b"HTTP2-Settings", b"")] if h2cs == 1 else [])
+        req = h1_request(method.decode(), b"/r", [(b"Host", b"example.com"), (b"Connection", b"Upgrade, HTTP2-Settings"), (b"Upgrade", b"h2c")] + settings_header)
         conn.feed(req)
         out = conn.take()
         hd = split_h1_head(out)
@@ -499,4 +513,4 @@ def h2_response_delivery(si: int, hi: int, ci: int, head: bool, pace: int, h2c: 
         why = f"application still blocked at step {app.instances[0].step}"
     if not why and conn.sched.errors:
         why = "exception escaped a task: %r" % (conn.sched.errors[0],)
-    return done(why == "", status=status, headers=S_HEADERS[hi], chunks=chunks, method=method, pace=PACES[pace], h2c=h2c, trailers=["none", "to a te: trailers client", "to a client without te"][tr], priority=["none", "for the stream, before its HEADERS", "for a stream that never opens"][prio], why=why)
+    return done(why == "", status=status, headers=S_HEADERS[hi], chunks=chunks, method=method, pace=PACES[pace], variant=VARIANTS[var], why=why)
